@@ -7,7 +7,9 @@ jsonschema.validate(m, json.load(open('/root/.vp/MANIFEST.schema.json')))
 es = json.load(open('/root/.vp/EVIDENCE.schema.json'))
 for c in m['checks']:
     try:
-        jsonschema.validate(json.load(open(c['evidence_file'])), es)
+        ev = json.load(open(c['evidence_file']))
+        jsonschema.validate(ev, es)
+        assert ev['level'] == c['level_claimed']['category'], 'level mismatch'
     except Exception as e:
         ok = False
         print('BAD', c['evidence_file'], str(e)[:200])
